@@ -183,7 +183,7 @@ package stack
 //@   ensures [initNoDot C01] result == nil && pkgDot(raw) == -1 ==> f.ImportPath == old(f.ImportPath) && f.Complete == unescape(raw)
 //@   ensures [nameIsTheSymbolWithoutCreatorSuffix C01] result == nil ==> ((lastIndexByte(f.Complete[(pkgDot(raw) >= 0 ? len(f.ImportPath) : -1)+1:], 32) > -1 && lastIndexByte(f.Complete[(pkgDot(raw) >= 0 ? len(f.ImportPath) : -1)+1:], 32) >= 13 && f.Complete[(pkgDot(raw) >= 0 ? len(f.ImportPath) : -1)+1:][lastIndexByte(f.Complete[(pkgDot(raw) >= 0 ? len(f.ImportPath) : -1)+1:], 32)-13:lastIndexByte(f.Complete[(pkgDot(raw) >= 0 ? len(f.ImportPath) : -1)+1:], 32)] == " in goroutine") ? f.Name == f.Complete[(pkgDot(raw) >= 0 ? len(f.ImportPath) : -1)+1:][:lastIndexByte(f.Complete[(pkgDot(raw) >= 0 ? len(f.ImportPath) : -1)+1:], 32)-13] : f.Name == f.Complete[(pkgDot(raw) >= 0 ? len(f.ImportPath) : -1)+1:])
 //@   ensures [dirNameIsLastPathElement C01] result == nil ==> (lastIndexByte(f.ImportPath, 47) != -1 ? f.DirName == f.ImportPath[lastIndexByte(f.ImportPath, 47)+1:] : f.DirName == f.ImportPath)
-//@   ensures [initMainFlag C01] result == nil ==> (f.IsPkgMain <==> f.ImportPath == "main") || old(f.IsPkgMain)
+//@   ensures [initMainFlag C01 C13] result == nil ==> (f.IsPkgMain <==> f.ImportPath == "main") || old(f.IsPkgMain)
 
 //@ func (*Call).init
 //@   requires c != nil
@@ -1057,6 +1057,9 @@ package stack
 //@ func (*Snapshot).findRoots
 //@   requires s != nil && forall g :: 0 <= g && g < len(s.Goroutines) ==> s.Goroutines[g] != nil
 //@   modifies Snapshot.RemoteGOROOT, Snapshot.RemoteGOPATHs, Snapshot.LocalGomods at s
+//@   assert after-call strings.HasPrefix#1: [onlyFilesUnderTheGoRootSourcesAreSkipped C18] arg0 == f && arg1 == s.RemoteGOROOT + "/src/"
+//@   assert after-call hasSrcPrefix#1: [gopathShortcutOnThisFile C18] arg0 == f && arg1 == s.RemoteGOPATHs
+//@   assert after-call hasPrefix#1: [moduleShortcutOnThisFile C18] arg0 == f && arg1 == s.LocalGomods
 //@   assert after-store Snapshot.RemoteGOROOT#1: [goRootIsTheCandidateWithoutSrc C18] len(r) >= 4 && s.RemoteGOROOT == r[:len(r)-4] && r[len(r)-4:] == "/src"
 //@   assert after-mapupdate#1: [gopathSrcRootRecorded C18] len(r) >= 4 && r[len(r)-4:] == "/src" && dom(s.RemoteGOPATHs, r[:len(r)-4]) && s.RemoteGOPATHs[r[:len(r)-4]] == l
 //@   assert after-mapupdate#2: [gopathModRootRecorded C18] len(r) >= 8 && r[len(r)-8:] == "/pkg/mod" && dom(s.RemoteGOPATHs, r[:len(r)-8]) && s.RemoteGOPATHs[r[:len(r)-8]] == l
